@@ -583,7 +583,7 @@ REPR = [
     ('batch', 2), ('batch', 1),
     ('sink', SELF), ('sink', T('a', 'a')),
 ]
-REPR_QUICK = [op for j, op in enumerate(REPR) if j not in (2, 6, 13, 16)]
+REPR_QUICK = [op for j, op in enumerate(REPR) if j not in (2, 13, 16)]
 REPR_SMALL = [REPR[0], REPR[1], REPR[4], REPR[5], REPR[8], REPR[9], REPR[12], REPR[14], REPR[15], REPR[17], REPR[18]]
 
 # identity / aliasing family: only pass-through operators and assigns, so every output descends from one caller record
@@ -615,7 +615,8 @@ PREFIXES = [
     [('assign', 'inc', 'a', SELF)], [('filter', 'gt', 'a')], [('select', 'a', None), ('filter', 'gt', 'a')],
     [('assign', 'inc', 'a', 'c'), ('filter', 'gt', 'a')], [('batch', 2)], [('select', T('a', 'b'), None), ('batch', 2)],
     [('select', T('a', 'b'), T('c', SKIP))], [('assign', 'two', 'a', T(SKIP, 'x'))],
-    [('sink', SELF)], [('select', 'a', None), ('sink', 'a')], [('assign', 'inc', 'a', 'c'), ('sink', SELF)],
+    [('assign', 'inc', 'a', 'c'), ('apply', 'inc', 'a', 'x')], [('select', 'a', None), ('sink', 'a')],
+    [('select', T('a', 'b'), None), ('apply', 'rec', SELF, SELF)], [('sink', SELF)], [('assign', 'inc', 'a', 'c'), ('sink', SELF)],
     [('select', T('a', 'b'), None), ('select', 'a', None)], [('assign', 'inc', 'a', 'c'), ('select', 'a', None)],
     [('apply', 'two', 'a', T('p', 'c')), ('select', 'p', None)],
 ]
